@@ -1,5 +1,6 @@
 import EmbitModel.Driver.Proto
 import EmbitModel.Model.Bip39
+import EmbitModel.Model.Bip39Str
 import EmbitModel.Spec.Bip39Spec
 import EmbitModel.Crypto.Sha256
 import EmbitModel.Crypto.Hmac
@@ -22,8 +23,29 @@ def showOptB : Option Bytes → String
 def showGroups (l : List (List Nat)) : String :=
   joinToks (toString l.length :: l.flatMap fun g => toString g.length :: g.map toString)
 
+/-- UTF-8 of one code point (the harness never sends surrogates) -/
+def utf8Cp (c : Nat) : Bytes :=
+  if c < 0x80 then [UInt8.ofNat c]
+  else if c < 0x800 then [UInt8.ofNat (0xC0 + c / 64), UInt8.ofNat (0x80 + c % 64)]
+  else if c < 0x10000 then [UInt8.ofNat (0xE0 + c / 4096), UInt8.ofNat (0x80 + c / 64 % 64), UInt8.ofNat (0x80 + c % 64)]
+  else [UInt8.ofNat (0xF0 + c / 262144), UInt8.ofNat (0x80 + c / 4096 % 64), UInt8.ofNat (0x80 + c / 64 % 64),
+        UInt8.ofNat (0x80 + c % 64)]
+
 def handleBip39 (op : String) (args : List String) : Option String :=
   match op with
+  | "bip39.seedstr" => do
+    -- `mnemonic_to_seed` on the STRING (C15X): validate flag, code points of the mnemonic, the code points for which
+    -- `str.isspace` holds, a dictionary token (code points) -> index in the word list (tokens outside the list are
+    -- absent and get an index that no list has), code points of the passphrase
+    let (v, s, sps, dict, pw) ← runTok (do
+      let v ← tokNat; let s ← tokCounted tokNat; let sps ← tokCounted tokNat
+      let d ← tokCounted (do let w ← tokCounted tokNat; let i ← tokNat; pure (w, i))
+      let p ← tokCounted tokNat; pure (v, s, sps, d, p)) args
+    let word : List Nat → Nat := fun w => match dict.find? (fun e => e.1 == w) with
+      | some (_, i) => i
+      | none => 4096
+    pure (showOptB (Model.Bip39.mnemonicToSeed (fun c => sps.contains c) utf8Cp word sha256 pbkdf2HmacSha512
+      (if v != 0 then some bip39List else none) s pw))
   | "bip39.to_bytes" => do
     let (ign, ws) ← runTok (do let i ← tokNat; let w ← tokCounted tokNat; pure (i, w)) args
     pure (showOptB (Model.Bip39.toBytes sha256 bip39List (ign != 0) ws))
